@@ -84,7 +84,7 @@ func (c *Cache) AddEntry(sname types.PrincipalName, a types.Authenticator) {
 // addEntry records that the authenticator has been presented to the service. The caller must hold
 // the write lock.
 func (c *Cache) addEntry(sname types.PrincipalName, a types.Authenticator) {
-	ct := a.CTime.Add(time.Duration(a.Cusec) * time.Microsecond)
+	ct := authenticatorTime(a)
 	ce, ok := c.entries[clientKey(a)]
 	if !ok {
 		ce = clientEntries{
@@ -99,6 +99,14 @@ func (c *Cache) addEntry(sname types.PrincipalName, a types.Authenticator) {
 	ce.seqNumber = a.SeqNumber
 	ce.subKey = a.SubKey
 	c.entries[clientKey(a)] = ce
+}
+
+// authenticatorTime is the instant the authenticator carries (ctime and cusec) in the one form that is used
+// as a map key: time.Time values are compared with ==, which also compares the location, and a ctime that
+// was encoded with a numeric zone offset decodes with a new location every time.
+func authenticatorTime(a types.Authenticator) time.Time {
+	ct := a.CTime.Add(time.Duration(a.Cusec) * time.Microsecond)
+	return time.Unix(ct.Unix(), int64(ct.Nanosecond())).UTC()
 }
 
 // clientKey is the cache key of the client that sent the authenticator: its realm and every name
@@ -129,7 +137,7 @@ func (c *Cache) ClearOldEntries(d time.Duration) {
 // The check and the insert happen under one write lock so that concurrent presentations of the same
 // authenticator cannot both be accepted.
 func (c *Cache) IsReplay(sname types.PrincipalName, a types.Authenticator) bool {
-	ct := a.CTime.Add(time.Duration(a.Cusec) * time.Microsecond)
+	ct := authenticatorTime(a)
 	c.mux.Lock()
 	defer c.mux.Unlock()
 	if ce, ok := c.entries[clientKey(a)]; ok {
